@@ -353,7 +353,7 @@ class XPathContext:
         """
         if varnames is None:
             varnames = []
-        iterators = [x(self) for x in selectors]
+        iterators = [x(self.__copy__()) for x in selectors]  # each range expression has its own focus
         dimension = len(iterators)
         prod = [None] * dimension
         max_index = dimension - 1
@@ -387,7 +387,7 @@ class XPathContext:
                     # leave the last bindings in the dictionary, as before
                     self.variables.update((n, v) for n, v in zip(varnames, prod) if v is not None)
                     return
-                iterators[k] = selectors[k](self)
+                iterators[k] = selectors[k](self.__copy__())
                 k -= 1
 
     ##
